@@ -52,6 +52,13 @@ const (
 	c16NoneSpan   = 12 * time.Second // virtual time observed when no synchronisation is possible
 	c16ReadSpan   = 3 * time.Second  // virtual time a read-back gets to deliver bytes that are present
 	c16BufSize    = 64 * 1024
+	// hard bounds of one execution, independent of the virtual clock (a follower that loops
+	// without ever sleeping keeps messages flowing at one virtual instant): the longest
+	// legitimate execution of the thorough tier delivers 25 messages (measured on the fixed
+	// tree) and takes a few hundred loop iterations
+	c16MaxWire   = 120  // server->client messages
+	c16MaxSteps  = 1500 // iterations of the event loop
+	c16MaxFaultK = 8    // interruption points enumerated below a run that already fails (and no second fault)
 )
 
 // run ids of history 1 (the leader's), 2 (another one a follower may hold), 3 (the one a
@@ -650,7 +657,11 @@ func (r *c16Run) fail(clause, kind string, detail map[string]interface{}) {
 	if detail == nil {
 		detail = map[string]interface{}{}
 	}
-	detail["trace"] = append([]string(nil), r.trace...)
+	tr := append([]string(nil), r.trace...)
+	if len(tr) > 70 {
+		tr = append(append(append([]string(nil), tr[:35]...), fmt.Sprintf("... %d lines ...", len(tr)-70)), tr[len(tr)-35:]...)
+	}
+	detail["trace"] = tr
 	detail["expect"] = r.scn.expect()
 	detail["leader_run_id"] = r.L.id[:4]
 	for h := 1; h < len(c16IDs); h++ {
@@ -688,6 +699,8 @@ func (r *c16Run) sig(kind string) string {
 		return "C16:phantom-snapshot"
 	case "snapshot-incomplete":
 		return "C16:snapshot-incomplete:" + r.scn.Follower.Backend
+	case "no-convergence":
+		return "C16:no-convergence:" + r.scn.Follower.Backend
 	}
 	return fmt.Sprintf("C16:%s:%s", kind, r.group())
 }
@@ -794,6 +807,12 @@ func (r *c16Run) observe() {
 				kind := "foreign-snapshot"
 				if strings.HasPrefix(whose, "the ") {
 					kind = "foreign-byte"
+				}
+				for _, k := range r.snaps {
+					if k.hist == hist && k.size == s.Size && (len(s.Data) == 0 || s.Data[0] == c16Byte(hist, k.kind, 0)) {
+						kind = "snapshot-misplaced" // that history's snapshot, filed under an offset it does not have
+						whose = fmt.Sprintf("this history's snapshot of offset %d", k.left)
+					}
 				}
 				r.fail("the follower holds, "+under+", a snapshot that history does not have",
 					kind, map[string]interface{}{"run_id": id[:4], "snapshot": s.Name, "left": s.Left, "size": s.Size, "first_byte_is": whose})
@@ -974,19 +993,23 @@ func (r *c16Run) restart() {
 
 // drive is the event loop: one environment event, then quiescence, then the invariants.
 // Result: "" (ended: follower returned, or tails the leader with nothing left to do),
-// "timeout" (deadline of virtual time passed), "machinery".
+// "timeout" (deadline of virtual time passed), "no-convergence" (message / step bound
+// exceeded), "machinery".
 func (r *c16Run) drive() string {
 	expect := r.scn.expect()
 	r.deadline = c16Horizon
 	if expect == "none" {
 		r.deadline = c16NoneSpan
 	}
-	for {
+	for steps := 0; ; steps++ {
 		synctest.Wait()
 		r.poll()
 		r.observe()
 		if r.viol != nil || r.ended {
 			return ""
+		}
+		if r.wire >= c16MaxWire || steps >= c16MaxSteps {
+			return "no-convergence"
 		}
 		if r.wantAppend {
 			r.wantAppend = false
@@ -1268,6 +1291,9 @@ func c16Exec(t *testing.T, scn c16Scenario) (res mc.Result, wire int) {
 		expect := scn.expect()
 		if r.viol == nil {
 			switch {
+			case how == "no-convergence":
+				r.fail(fmt.Sprintf("after %d server->client messages (%v of virtual time) the follower neither tails the leader nor has returned: transfers repeat without converging", r.wire, r.virt),
+					"no-convergence", map[string]interface{}{"follower_right": r.followerRight(), "leader_right": r.L.right, "messages": r.wire})
 			case timedOut && expect != "none":
 				what := "re-synchronised"
 				if expect == "takeover" {
@@ -1402,9 +1428,12 @@ func runC16(t *testing.T, rep *mc.Reporter) {
 			continue
 		}
 		rep.Scenario()
-		_, m, ok := run(scn)
+		res0, m, ok := run(scn)
 		if !ok {
 			return
+		}
+		if res0.Verdict != "ok" && m > c16MaxFaultK {
+			m = c16MaxFaultK // the pair fails without any fault: a prefix of its interruption points is enough
 		}
 		// m = messages of the fault-free run (up to its violation, if it has one)
 		modes := []string{"break"}
@@ -1424,9 +1453,12 @@ func runC16(t *testing.T, rep *mc.Reporter) {
 					s2 := scn
 					s2.Faults = []c16Fault{{K: k, Mode: mode}}
 					s2.AppendAtFault = app
-					_, m1, ok := run(s2)
+					res1, m1, ok := run(s2)
 					if !ok {
 						return
+					}
+					if res0.Verdict != "ok" || res1.Verdict != "ok" {
+						continue // the pair already fails with fewer faults: second faults add cost, not information
 					}
 					// a second lost message anywhere after the first one
 					// (quick: transport breaks only, no append at the fault)
